@@ -15,7 +15,7 @@ from vf.core import Reject
 from vf.props import c05
 
 
-def strategy(tier, adhesion=False):
+def strategy(tier, adhesion=False, contact_adhesion=False):
   return st.fixed_dictionaries(
     dict(
       cfg=gen.rich_cfg(
@@ -28,6 +28,7 @@ def strategy(tier, adhesion=False):
         trn_menu=["joint"] if not adhesion else ["body", "joint"],
         condim_menu=st.sampled_from([[3], [1, 3, 4, 6], [4], [6]]),
         geom_params=st.booleans(),
+        geom_adhesion=contact_adhesion,
       ),
       opt=gen.option_strategy(integrators=("Euler",)),
       impratio=st.sampled_from([1.0, 1.0, 5.0]),
